@@ -223,6 +223,17 @@ impl Model {
     }
 }
 
+/// `got` is value/127 as an f32: exact at the end points the statement names, within 2 ulp of 1.0 elsewhere
+/// (so that `v * (1/127)` is accepted and `v / 128` is not)
+fn is_v_over_127(got_bits: u32, v: u8) -> bool {
+    let got = f32::from_bits(got_bits);
+    match v {
+        0 => got == 0.0,
+        127 => got == 1.0,
+        _ => (got as f64 - v as f64 / 127.0).abs() <= 2.4e-7,
+    }
+}
+
 #[derive(Clone, Copy, PartialEq, Debug)]
 struct Outs {
     gate: bool,
@@ -289,17 +300,16 @@ impl Exec {
         let o = outs(&self.rx);
         let m = &self.m;
         let notes_ok = !m.cap_exceeded;
-        let vel_exp = (m.vel as f32 / 127.0).to_bits();
         let def = m.def.unwrap_or(o);
-        let vel_ok = if m.vel_set { o.vel == vel_exp } else { o.vel == def.vel };
+        let vel_ok = if m.vel_set { is_v_over_127(o.vel, m.vel) } else { o.vel == def.vel };
         let note_side = !notes_ok || (o.gate == m.gate && o.note == m.note && vel_ok);
         let mut cc_ok = true;
         for i in 0..5 {
-            let want = match m.cc[i] {
-                Some(v) => (v as f32 / 127.0).to_bits(),
-                None => def.cc[i],
+            let ok = match m.cc[i] {
+                Some(v) => is_v_over_127(o.cc[i], v),
+                None => o.cc[i] == def.cc[i],
             };
-            if o.cc[i] != want {
+            if !ok {
                 cc_ok = false;
             }
         }
